@@ -49,6 +49,14 @@ func (v *VerifPartialCache) RoundIndices(round uint64, prev []byte) []int {
 	}
 	return out
 }
+// RoundSig returns the partial signature cached for signer idx in (round, prev), nil if none.
+func (v *VerifPartialCache) RoundSig(round uint64, prev []byte, idx int) []byte {
+	rc := v.c.GetRoundCache(round, prev)
+	if rc == nil {
+		return nil
+	}
+	return rc.sigs[idx]
+}
 func (v *VerifPartialCache) NumRounds() int { return len(v.c.rounds) }
 
 // Rcvd returns, per signer index, the list of round ids the cache attributes to it.
